@@ -144,7 +144,7 @@ impl Check for C06 {
             "server_info.num_players equals the number of players listed or exceeds it (a server that lists more players than it announces is inconsistent)".into(),
         ]
     }
-    fn total_cases(&self, tier: Tier) -> u64 { SWEEP + tier.pick(40_000, 1_500_000) }
+    fn total_cases(&self, tier: Tier) -> u64 { SWEEP + tier.pick(200_000, 1_500_000) }
     fn exhaustive(&self, _tier: Tier) -> Option<bool> { Some(true) }
     fn case_label(&self, _tier: Tier, idx: u64) -> String { if idx < SWEEP { "sweep".into() } else { "random".into() } }
     fn run_case(&mut self, cx: &mut Cx) {
@@ -160,9 +160,11 @@ impl Check for C06 {
                 let with_nul = total > 0 && cx.rng.bool();
                 let mut s = UStr::gen(&mut cx.rng, true, total.saturating_sub(with_nul as usize + deco_cost(deco)), deco, with_nul);
                 pad_to(&mut cx.rng, &mut s, total);
+                // the stray 01 byte of some games in front of the data: every second position of the sweep
+                s.extra01 = total > 0 && pos % 2 == 1;
                 s
             } else if total == 0 {
-                UStr { units: vec![], ucs2: false, with_nul: false }
+                UStr { units: vec![], ucs2: false, with_nul: false, extra01: false }
             } else {
                 let mut s = UStr::gen(&mut cx.rng, false, (total - 1).saturating_sub(deco_cost(deco)), deco, true);
                 pad_to(&mut cx.rng, &mut s, total);
